@@ -4,48 +4,86 @@
 From Coq Require Import ZArith Bool Lia List Permutation.
 Import ListNotations.
 Require Import MS.Base.GoInt MS.Base.Res MS.Base.F32 MS.Base.F64 MS.Model.Uda MS.Model.Candle
-               MS.Proofs.Uda_facts MS.Proofs.Candle_map MS.Proofs.Candle_ohlc.
+               MS.Proofs.Uda_facts MS.Proofs.Candle_map MS.Proofs.Candle_ohlc MS.Generated.Src_agg.
 Local Open Scope Z_scope.
 
-(** ------------------------------------------------------------------ nesting of windows *)
-Lemma time_truncate_eq t d : 0 < d -> time_truncate t d = d * ((t + abs_epoch_ns) / d) - abs_epoch_ns.
+(** ------------------------------------------------------------------ what composition needs of the two timeframes *)
+(** stated for ARBITRARY window functions (any system timezone): *)
+Definition mono (cd : cdur) : Prop := forall t t', t <= t' -> truncate cd t <= truncate cd t'.
+Definition nests (cd1 cd2 : cdur) : Prop := forall t, truncate cd2 (truncate cd1 t) = truncate cd2 t.
+Definition whole_sec (cd : cdur) : Prop := forall t, (truncate cd t / NS) * NS = truncate cd t.
+
+(** … and established for zones at a fixed UTC offset [off] (ns): the fine window length is a whole number of
+    seconds and divides the coarse one, and the grids' origins (0001-01-01 UTC for Sec/Min/H, local midnight for D)
+    differ by a multiple of the fine length — for a sub-day fine timeframe under a "D" coarse one that is: the
+    zone offset is a multiple of the fine duration *)
+Definition eff_dur (cd : cdur) : Z := if cd_day cd then agg_Day else cd_dur cd.
+Definition origin (off : Z) (cd : cdur) : Z := if cd_day cd then off else abs_epoch_ns.
+
+Record divides_in_zone (off : Z) (cd1 cd2 : cdur) : Prop := {
+  dz_ds1 : cd_ds cd1 = day_start off;
+  dz_ds2 : cd_ds cd2 = day_start off;
+  dz_pos : 0 < eff_dur cd1;
+  dz_sec : exists q, eff_dur cd1 = q * NS;
+  dz_off : exists r, off = r * NS;
+  dz_mult : exists k, 0 < k /\ eff_dur cd2 = k * eff_dur cd1;
+  dz_origin : exists c, origin off cd2 - origin off cd1 = c * eff_dur cd1
+}.
+
+Lemma truncate_as_o off cd t : cd_ds cd = day_start off -> 0 < eff_dur cd ->
+  truncate cd t = trunc_o (origin off cd) (eff_dur cd) t.
 Proof.
-  intros H. unfold time_truncate. destruct (Z.leb_spec d 0); [lia|].
-  pose proof (Z_div_mod_eq_full (t + abs_epoch_ns) d). lia.
+  intros E P. unfold truncate, origin, eff_dur in *. destruct (cd_day cd).
+  - rewrite E. reflexivity.
+  - apply time_truncate_o, P.
 Qed.
 
-Lemma time_truncate_nest t d1 k : 0 < d1 -> 0 < k ->
-  time_truncate (time_truncate t d1) (k * d1) = time_truncate t (k * d1).
-Proof.
-  intros H1 Hk. assert (0 < k * d1) by nia.
-  rewrite (time_truncate_eq t d1 H1), !(time_truncate_eq _ (k * d1)) by assumption.
-  f_equal. f_equal.
-  replace (d1 * ((t + abs_epoch_ns) / d1) - abs_epoch_ns + abs_epoch_ns) with (d1 * ((t + abs_epoch_ns) / d1)) by lia.
-  rewrite (Z.mul_comm k d1). rewrite Z.div_mul_cancel_l by lia.
-  rewrite Z.div_div by lia. reflexivity.
-Qed.
+Section Zone.
+Variables (off : Z) (cd1 cd2 : cdur).
+Hypothesis D : divides_in_zone off cd1 cd2.
 
-(** window starts of a whole-second timeframe are whole seconds *)
-Lemma time_truncate_whole_sec t d q : 0 < d -> d = q * NS -> (time_truncate t d / NS) * NS = time_truncate t d.
-Proof.
-  intros H E. rewrite (time_truncate_eq t d H).
-  assert (X : d * ((t + abs_epoch_ns) / d) - abs_epoch_ns = (q * ((t + abs_epoch_ns) / d) - 62135596800) * NS).
-  { rewrite E at 1. unfold abs_epoch_ns. ring. }
-  rewrite X. rewrite Z_div_mult by reflexivity. reflexivity.
-Qed.
+Lemma dz_pos2 : 0 < eff_dur cd2.
+Proof. destruct (dz_mult _ _ _ D) as (k & K & E). pose proof (dz_pos _ _ _ D). rewrite E. nia. Qed.
 
-(** [divides cd1 cd2]: the fine timeframe's window length is a whole number of seconds and divides the coarse one *)
+Lemma zone_idem1 : idem cd1.
+Proof. intros t. rewrite !(truncate_as_o off cd1) by (apply D). apply trunc_o_idem, D. Qed.
+Lemma zone_idem2 : idem cd2.
+Proof. intros t. rewrite !(truncate_as_o off cd2) by (apply D || apply dz_pos2). apply trunc_o_idem, dz_pos2. Qed.
+Lemma zone_mono1 : mono cd1.
+Proof. intros t t' L. rewrite !(truncate_as_o off cd1) by (apply D). apply trunc_o_mono; [apply D | exact L]. Qed.
+Lemma zone_whole_sec1 : whole_sec cd1.
+Proof.
+  intros t. rewrite (truncate_as_o off cd1) by (apply D).
+  destruct (dz_sec _ _ _ D) as (q & Eq). destruct (dz_off _ _ _ D) as (r & Er).
+  unfold origin. destruct (cd_day cd1).
+  - apply (trunc_o_whole off _ q r); [apply D | exact Eq | exact Er].
+  - apply (trunc_o_whole abs_epoch_ns _ q 62135596800); [apply D | exact Eq | reflexivity].
+Qed.
+Lemma zone_nests : nests cd1 cd2.
+Proof.
+  intros t. rewrite (truncate_as_o off cd1 t) by (apply D).
+  rewrite !(truncate_as_o off cd2) by (apply D || apply dz_pos2).
+  destruct (dz_mult _ _ _ D) as (k & K & E). destruct (dz_origin _ _ _ D) as (c & Ec). rewrite E.
+  apply (trunc_o_nest _ _ _ k c); [apply D | exact K | exact Ec].
+Qed.
+End Zone.
+
+(** UTC (the default system timezone): dividing window lengths suffice *)
 Definition divides (cd1 cd2 : cdur) : Prop :=
+  cd_ds cd1 = day_start 0 /\ cd_ds cd2 = day_start 0 /\
   0 < eff_dur cd1 /\ (exists q, eff_dur cd1 = q * NS) /\ exists k, 0 < k /\ eff_dur cd2 = k * eff_dur cd1.
 
-Lemma truncate_nest cd1 cd2 t : divides cd1 cd2 -> truncate cd2 (truncate cd1 t) = truncate cd2 t.
-Proof.
-  intros (H1 & _ & k & Hk & E). rewrite !truncate_eff, E. apply time_truncate_nest; assumption.
-Qed.
+Lemma abs_epoch_days : abs_epoch_ns = 719162 * agg_Day.
+Proof. reflexivity. Qed.
 
-Lemma truncate_whole_sec cd1 cd2 t : divides cd1 cd2 -> (truncate cd1 t / NS) * NS = truncate cd1 t.
+Lemma divides_utc cd1 cd2 : divides cd1 cd2 -> divides_in_zone 0 cd1 cd2.
 Proof.
-  intros (H1 & (q & Eq) & _). rewrite truncate_eff. apply (time_truncate_whole_sec t _ q H1 Eq).
+  intros (E1 & E2 & P & Q & (k & K & M)). constructor; auto; [exists 0; reflexivity | exists k; auto|].
+  unfold origin, eff_dur in *. destruct (cd_day cd1), (cd_day cd2).
+  - exists 0. lia.
+  - exists 719162. rewrite abs_epoch_days. lia.
+  - exists (- 719162 * k). rewrite abs_epoch_days, M. ring.
+  - exists 0. lia.
 Qed.
 
 (** ------------------------------------------------------------------ fine candles as input bars *)
@@ -60,7 +98,11 @@ Definition fine_bars (cd1 : cdur) (rows : list bar) : list bar :=
 Section Compose.
 Variables cd1 cd2 : cdur.
 Variable rows : list bar.
-Hypothesis Hdiv : divides cd1 cd2.
+Hypothesis Hid1 : idem cd1.
+Hypothesis Hid2 : idem cd2.
+Hypothesis Hmono : mono cd1.
+Hypothesis Hnest : nests cd1 cd2.
+Hypothesis Hws : whole_sec cd1.
 Hypothesis Hok : rows_ok rows.
 Hypothesis Hnz : forall r, In r rows -> truncate cd1 (b_t r) <> zero_time.
 
@@ -71,21 +113,21 @@ Lemma fine_bar_inv fb : In fb (fine_bars cd1 rows) ->
     /\ candle_spec (window_candle cd1 0 wf rows) wf (window_rows cd1 wf rows).
 Proof.
   unfold fine_bars. intros I. apply in_map_iff in I. destruct I as ([wf c] & E & I). cbn [snd] in E.
-  destruct (accum_partition cd1 0 [rows]) as (_ & K & C). cbn [concat] in K, C. rewrite app_nil_r in K, C.
+  destruct (accum_partition cd1 0 [rows] Hid1) as (_ & K & C). cbn [concat] in K, C. rewrite app_nil_r in K, C.
   pose proof (C wf c I) as Ec. subst c.
   assert (Ex : exists r, In r rows /\ truncate cd1 (b_t r) = wf).
   { apply K. apply (in_map fst) in I. exact I. }
-  destruct (window_candle_meets_spec cd1 0 rows wf Hok Ex) as [S _].
+  destruct (window_candle_meets_spec cd1 0 rows wf Hid1 Hok Ex) as [S _].
   exists wf. split; [exact Ex|]. split; [symmetry; exact E|]. split; [|exact S].
   subst fb. cbn [bar_of_candle b_t]. rewrite (cs_start _ _ _ S).
-  destruct Ex as (r & _ & Er). rewrite <- Er. apply (truncate_whole_sec cd1 cd2 _ Hdiv).
+  destruct Ex as (r & _ & Er). rewrite <- Er. apply Hws.
 Qed.
 
 Lemma fine_bar_of_row r : In r rows ->
   In (bar_of_candle (window_candle cd1 0 (truncate cd1 (b_t r)) rows)) (fine_bars cd1 rows).
 Proof.
   intros I. unfold fine_bars. apply in_map_iff.
-  destruct (accum_partition cd1 0 [rows]) as (_ & K & C). cbn [concat] in K, C. rewrite app_nil_r in K, C.
+  destruct (accum_partition cd1 0 [rows] Hid1) as (_ & K & C). cbn [concat] in K, C. rewrite app_nil_r in K, C.
   assert (Kw : In (truncate cd1 (b_t r)) (map fst (sort_by_key (accum_all cd1 0 [rows])))) by (apply K; eauto).
   apply in_map_iff in Kw. destruct Kw as ([w c] & Ew & Iw). cbn [fst] in Ew. subst w.
   exists (truncate cd1 (b_t r), c). split; [|exact Iw]. cbn [snd]. rewrite (C _ _ Iw). reflexivity.
@@ -110,7 +152,7 @@ Proof.
   (* at most one candle per row *)
   destruct Hok as [_ L]. apply Z.le_trans with (Z.of_nat (length rows)); [|exact L].
   apply Nat2Z.inj_le.
-  destruct (accum_rows_concat cd1 0 [rows] [] (wf_nil cd1)) as [E _]. unfold accum_all. rewrite E.
+  destruct (accum_rows_concat cd1 0 [rows] Hid1 [] (wf_nil cd1)) as [E _]. unfold accum_all. rewrite E.
   cbn [concat]. rewrite app_nil_r.
   assert (G : forall rs m, (length (fold_left (row_step' cd1 0) rs m) <= length m + length rs)%nat).
   { induction rs as [|r rs IH]; intros m; cbn [fold_left length]; [lia|].
@@ -133,9 +175,9 @@ Proof.
   assert (Hw : wf = truncate cd1 (b_t r)).
   { rewrite <- Et. cbn [bar_of_candle b_t].
     assert (Ex : exists r0, In r0 rows /\ truncate cd1 (b_t r0) = truncate cd1 (b_t r)) by eauto.
-    destruct (window_candle_meets_spec cd1 0 rows _ Hok Ex) as [S _]. rewrite (cs_start _ _ _ S).
-    apply (truncate_whole_sec cd1 cd2 _ Hdiv). }
-  rewrite Hw, (truncate_nest cd1 cd2 _ Hdiv). exact E.
+    destruct (window_candle_meets_spec cd1 0 rows _ Hid1 Hok Ex) as [S _]. rewrite (cs_start _ _ _ S).
+    apply Hws. }
+  rewrite Hw, Hnest. exact E.
 Qed.
 
 Let C := window_candle cd2 0 W (fine_bars cd1 rows).       (* coarse candle from the fine candles *)
@@ -144,16 +186,16 @@ Let rsW := window_rows cd2 W rows.
 Let fbW := window_rows cd2 W (fine_bars cd1 rows).
 
 Lemma spec_C : candle_spec C W fbW.
-Proof. apply (window_candle_meets_spec cd2 0 (fine_bars cd1 rows) W fine_bars_ok coarse_has_fine). Qed.
+Proof. apply (window_candle_meets_spec cd2 0 (fine_bars cd1 rows) W Hid2 fine_bars_ok coarse_has_fine). Qed.
 
 Lemma spec_D : candle_spec D W rsW.
-Proof. apply (window_candle_meets_spec cd2 0 rows W Hok HW). Qed.
+Proof. apply (window_candle_meets_spec cd2 0 rows W Hid2 Hok HW). Qed.
 
 (** a row of a fine window inside W is a row of W *)
 Lemma fine_row_in_W wf x : truncate cd2 wf = W -> In x (window_rows cd1 wf rows) -> In x rsW.
 Proof.
   intros E I. apply filter_In in I. destruct I as [I Ex]. apply Z.eqb_eq in Ex.
-  apply filter_In. split; [exact I|]. apply Z.eqb_eq. rewrite <- (truncate_nest cd1 cd2 _ Hdiv), Ex. exact E.
+  apply filter_In. split; [exact I|]. apply Z.eqb_eq. rewrite <- Hnest, Ex. exact E.
 Qed.
 
 (** every row of W lies in a fine window whose bar is in fbW *)
@@ -168,12 +210,12 @@ Proof.
   assert (Ew : wf = truncate cd1 (b_t x)).
   { rewrite <- Et. cbn [bar_of_candle b_t].
     assert (Ex0 : exists r0, In r0 rows /\ truncate cd1 (b_t r0) = truncate cd1 (b_t x)) by eauto.
-    destruct (window_candle_meets_spec cd1 0 rows _ Hok Ex0) as [S0 _]. rewrite (cs_start _ _ _ S0).
-    apply (truncate_whole_sec cd1 cd2 _ Hdiv). }
+    destruct (window_candle_meets_spec cd1 0 rows _ Hid1 Hok Ex0) as [S0 _]. rewrite (cs_start _ _ _ S0).
+    apply Hws. }
   rewrite Ew in Et, S.
   exists (bar_of_candle (window_candle cd1 0 (truncate cd1 (b_t x)) rows)).
   split; [|split; [exact Et|split; [reflexivity|split; [exact S|]]]].
-  - apply filter_In. split; [exact F|]. apply Z.eqb_eq. rewrite Et, (truncate_nest cd1 cd2 _ Hdiv). exact Ex.
+  - apply filter_In. split; [exact F|]. apply Z.eqb_eq. rewrite Et, Hnest. exact Ex.
   - apply filter_In. split; [exact I | apply Z.eqb_refl].
 Qed.
 
@@ -193,7 +235,7 @@ Proof.
     intros x Ix. destruct (row_has_fine x Ix) as (fbx & Ifbx & Etx & _ & _ & Ixw).
     destruct (Z_le_gt_dec (b_t r1) (b_t x)) as [L|G]; [exact L|]. exfalso.
     (* x strictly earlier than r1: then x's fine window is not later than wf, hence equal, contradiction *)
-    assert (A : truncate cd1 (b_t x) <= truncate cd1 (b_t r1)) by (apply truncate_mono; lia).
+    assert (A : truncate cd1 (b_t x) <= truncate cd1 (b_t r1)) by (apply Hmono; lia).
     assert (B : truncate cd1 (b_t r1) = b_t fb).
     { apply filter_In in I1. destruct I1 as [_ B]. apply Z.eqb_eq in B. exact B. }
     pose proof (Mfb fbx Ifbx) as Cc. rewrite Etx in Cc.
@@ -215,7 +257,7 @@ Proof.
   { split; [apply (fine_row_in_W (b_t fb)); assumption|].
     intros x Ix. destruct (row_has_fine x Ix) as (fbx & Ifbx & Etx & _ & _ & Ixw).
     destruct (Z_le_gt_dec (b_t x) (b_t r1)) as [L|G]; [exact L|]. exfalso.
-    assert (A : truncate cd1 (b_t r1) <= truncate cd1 (b_t x)) by (apply truncate_mono; lia).
+    assert (A : truncate cd1 (b_t r1) <= truncate cd1 (b_t x)) by (apply Hmono; lia).
     assert (B : truncate cd1 (b_t r1) = b_t fb).
     { apply filter_In in I1. destruct I1 as [_ B]. apply Z.eqb_eq in B. exact B. }
     pose proof (Mfb fbx Ifbx) as Cc. rewrite Etx in Cc.
@@ -326,28 +368,44 @@ Proof. repeat split; [apply open_eq | apply close_eq | apply high_eq | apply low
 End Compose.
 
 (** the coarse windows obtained from the fine candles are exactly those of the rows *)
-Theorem compose_windows cd1 cd2 rows W : divides cd1 cd2 -> rows_ok rows ->
+Theorem compose_windows cd1 cd2 rows W : idem cd1 -> idem cd2 -> mono cd1 -> nests cd1 cd2 -> whole_sec cd1 -> rows_ok rows ->
   ((exists fb, In fb (fine_bars cd1 rows) /\ truncate cd2 (b_t fb) = W) <-> (exists r, In r rows /\ truncate cd2 (b_t r) = W)).
 Proof.
-  intros Hdiv Hok. split.
-  - intros (fb & I & E). destruct (fine_bar_inv cd1 cd2 rows Hdiv Hok fb I) as (wf & (r & Ir & Er) & _ & Et & _).
-    exists r. split; [exact Ir|]. rewrite <- (truncate_nest cd1 cd2 _ Hdiv), Er, <- Et. exact E.
-  - intros HW. apply (coarse_has_fine cd1 cd2 rows Hdiv Hok W HW).
+  intros H1 H2 H3 H4 H5 Hok. split.
+  - intros (fb & I & E).
+    assert (X : exists wf, (exists r, In r rows /\ truncate cd1 (b_t r) = wf)
+                 /\ fb = bar_of_candle (window_candle cd1 0 wf rows) /\ b_t fb = wf
+                 /\ candle_spec (window_candle cd1 0 wf rows) wf (window_rows cd1 wf rows))
+      by (apply fine_bar_inv; assumption).
+    destruct X as (wf & (r & Ir & Er) & _ & Et & _).
+    exists r. split; [exact Ir|]. rewrite <- H4, Er, <- Et. exact E.
+  - intros HW. apply coarse_has_fine; assumption.
 Qed.
 
-(** [divides] decided by computation *)
-Definition dividesb (cd1 cd2 : cdur) : bool :=
-  (0 <? eff_dur cd1) && (eff_dur cd1 mod NS =? 0) && (0 <? eff_dur cd2) && (eff_dur cd2 mod eff_dur cd1 =? 0).
+(** [divides_in_zone] decided by computation, for the executable zones at a fixed offset *)
+Definition dividesb_zone (off : Z) (cd1 cd2 : cdur) : bool :=
+  (0 <? eff_dur cd1) && (eff_dur cd1 mod NS =? 0) && (off mod NS =? 0) && (0 <? eff_dur cd2)
+  && (eff_dur cd2 mod eff_dur cd1 =? 0) && ((origin off cd2 - origin off cd1) mod eff_dur cd1 =? 0).
+Definition dividesb (cd1 cd2 : cdur) : bool := dividesb_zone 0 cd1 cd2.
 
-Lemma dividesb_sound cd1 cd2 : dividesb cd1 cd2 = true -> divides cd1 cd2.
+Lemma dividesb_zone_sound off cd1 cd2 : cd_ds cd1 = day_start off -> cd_ds cd2 = day_start off ->
+  dividesb_zone off cd1 cd2 = true -> divides_in_zone off cd1 cd2.
 Proof.
-  unfold dividesb. rewrite !andb_true_iff, !Z.ltb_lt, !Z.eqb_eq. intros [[[H1 H2] H3] H4].
-  split; [exact H1|]. split.
+  intros E1 E2. unfold dividesb_zone. rewrite !andb_true_iff, !Z.ltb_lt, !Z.eqb_eq. intros [[[[[H1 H2] H3] H4] H5] H6].
+  constructor; auto.
   - exists (eff_dur cd1 / NS). pose proof (Z_div_mod_eq_full (eff_dur cd1) NS). lia.
+  - exists (off / NS). pose proof (Z_div_mod_eq_full off NS). lia.
   - exists (eff_dur cd2 / eff_dur cd1). pose proof (Z_div_mod_eq_full (eff_dur cd2) (eff_dur cd1)) as E.
-    rewrite H4 in E. split; [|lia].
+    rewrite H5 in E. split; [|lia].
     destruct (Z_lt_le_dec 0 (eff_dur cd2 / eff_dur cd1)) as [P|P]; [exact P|]. exfalso. nia.
+  - exists ((origin off cd2 - origin off cd1) / eff_dur cd1).
+    pose proof (Z_div_mod_eq_full (origin off cd2 - origin off cd1) (eff_dur cd1)). lia.
 Qed.
+
+Lemma dividesb_zone_of off m1 s1 m2 s2 :
+  dividesb_zone off (cd_of_zone off m1 s1) (cd_of_zone off m2 s2) = true ->
+  divides_in_zone off (cd_of_zone off m1 s1) (cd_of_zone off m2 s2).
+Proof. apply dividesb_zone_sound; reflexivity. Qed.
 
 (** ------------------------------------------------------------------ the executable pipeline *)
 (** a candler's output column series fed to a CandleCandler (Open::Open, High::High, Low::Low, Close::Close) *)
@@ -381,15 +439,15 @@ Lemma bar_of_orow_out_row c : bar_of_orow (out_row [] [] c) = bar_of_candle c.
 Proof. reflexivity. Qed.
 
 (** feeding the fine candler's output to a coarse CandleCandler computes the candle map of [fine_bars] *)
-Theorem pipeline_is_fine_bars cd1 cd2 rows : rows <> [] ->
+Theorem pipeline_is_fine_bars cd1 cd2 rows : idem cd1 -> rows <> [] ->
   run_accum cd2 [] [out_to_input (output [] [] (accum_all cd1 0 [rows]))] = Ok (accum_all cd2 0 [fine_bars cd1 rows]).
 Proof.
-  intros Hne.
+  intros Hid Hne.
   assert (E : map bar_of_orow (output [] [] (accum_all cd1 0 [rows])) = fine_bars cd1 rows).
   { unfold output, fine_bars. rewrite map_map. apply map_ext. intros kc. apply bar_of_orow_out_row. }
   assert (N : output [] [] (accum_all cd1 0 [rows]) <> []).
   { intro Z. destruct rows as [|r0 rows0]; [congruence|].
-    destruct (accum_partition cd1 0 [r0 :: rows0]) as (_ & K & _). cbn [concat] in K. rewrite app_nil_r in K.
+    destruct (accum_partition cd1 0 [r0 :: rows0] Hid) as (_ & K & _). cbn [concat] in K. rewrite app_nil_r in K.
     assert (I : In (truncate cd1 (b_t r0)) (map fst (sort_by_key (accum_all cd1 0 [r0 :: rows0])))).
     { apply K. exists r0. split; [left; reflexivity | reflexivity]. }
     unfold output in Z. apply map_eq_nil in Z. rewrite Z in I. destruct I. }
